@@ -5,7 +5,7 @@
    replayed on the real pre-fix code (notes/C13.md).  Also: witnesses showing that the
    hypotheses of kube_view_exact are needed. *)
 From Coq Require Import List ZArith Bool Lia.
-From GZ Require Import C13.Model C13.Proofs C13.ProofsB C13.ProofsC C13.ProofsD C13.ProofsF C13.ProofsG C13.ProofsH C13.ProofsI.
+From GZ Require Import C13.Model C13.Proofs C13.ProofsB C13.ProofsC C13.ProofsD C13.ProofsF C13.ProofsG C13.ProofsH C13.ProofsI C13.ProofsK.
 Import ListNotations.
 Open Scope Z_scope.
 
@@ -156,6 +156,42 @@ Proof.
   split; [|split; [|split]]; try reflexivity.
   cbn. intros [_ [_ [H _]]]. lia.
 Qed.
+
+(* Seeded change C13-9: watchStream remembers the HEADER revision of the last handled response and
+   watchUntil resumes a broken stream from it.  etcd stamps every catch-up batch with the CURRENT
+   store revision: put 1=10, put 2=20, delete 1, put 3=30, put 4=40; load after the first
+   mutation; the watcher is behind and gets the partial batch [put 2=20] with the header of the
+   4th mutation; the stream breaks (closed channel / Canceled / any non-compaction error); the new
+   stream starts after the header: "delete 1" and "put 3=30" are skipped for good - the stream
+   catches up (pos = hi = 5), key 1 is still shown, key 3 never appears.  The script is what
+   etcd may do (wf_script); the delivery is not consistent. *)
+Theorem resume_from_header_refuted :
+  exists h script,
+    wf_script RHeader h 0 0 script /\
+    let ds := watch_loop RHeader h 0 0 script in
+    ~ consistent h 0 0 ds /\
+    final_pos_g 0 0 ds = (5%nat, 5%nat) /\
+    etcd_state h 5 = [(4, 40); (3, 30); (2, 20)] /\
+    map c_values (conts (run (init [false]) (map ev_of_g ds))) = [[40; 20; 10]].
+Proof.
+  exists [BPut 1 10; BPut 2 20; BDel 1; BPut 3 30; BPut 4 40],
+         [SLoad 1 [(1, 10)] [LAdd 1 10]; SBatch 1 4; SBreak; SBatch 1 5].
+  split.
+  - cbn. repeat split; lia.
+  - cbn zeta. split; [|repeat split; reflexivity].
+    cbn. intros [_ [_ [_ [_ [_ [_ [H _]]]]]]]. lia.
+Qed.
+
+(* the same script prefix under the code's policy (resume from the load revision) and under
+   "last handled event": the stream is resumed at or before the position reached *)
+Example resume_from_load_rev_or_last_event_replays :
+  watch_loop RLoadRev [BPut 1 10; BPut 2 20; BDel 1; BPut 3 30; BPut 4 40] 0 0
+             [SLoad 1 [(1, 10)] [LAdd 1 10]; SBatch 1 4; SBreak] =
+    [GLoad 1 [(1, 10)] [LAdd 1 10]; GRestart 1; GResp 1 [BPut 2 20]; GRestart 1] /\
+  watch_loop RLastEvent [BPut 1 10; BPut 2 20; BDel 1; BPut 3 30; BPut 4 40] 0 0
+             [SLoad 1 [(1, 10)] [LAdd 1 10]; SBatch 1 4; SBreak] =
+    [GLoad 1 [(1, 10)] [LAdd 1 10]; GRestart 1; GResp 1 [BPut 2 20]; GRestart 2].
+Proof. split; reflexivity. Qed.
 
 (* A replay that stops half way (the stream restarted at the revision of the load delivers
    only the first of the events it has to deliver again): the deleted registration is back.
